@@ -66,6 +66,8 @@ func init() {
 			switch cs.K {
 			case "overlap":
 				c10Overlap(c, cs)
+			case "hooks":
+				c10Hooks(c, cs)
 			case "keysize":
 				c10KeySize(c, cs.Desc, cs.KeyLen)
 			case "encrypt":
@@ -79,6 +81,76 @@ func init() {
 			}
 		},
 	})
+}
+
+// c10Hooks: the cipher object's exported Padding field (the caller supplies the pad octets, as the library's own
+// known-answer tests do) with Iv left nil: the IV is still drawn from the random source for every call.
+func c10Hooks(c *engine.Ctx, cs c10Case) {
+	c.Evals++
+	kl := ref.EncrKeyLens[cs.Desc]
+	key := c10Key(kl, 2)
+	cr, err := encr.StrToType(univ.EncrName(kl)).NewCrypto(key)
+	obj, ok := cr.(*encr.EncrAesCbcCrypto)
+	if err != nil || !ok {
+		c.Count("cipher_object_has_no_padding_hook", 1)
+		return
+	}
+	p := c10Plain(cs.N, 2)
+	padLen := (16 - (cs.N+1)%16) % 16
+	if cs.At > 0 {
+		padLen += 16 * cs.At
+	}
+	obj.Padding = append(univ.Pat(padLen, 9), byte(padLen))
+	for _, fail := range []bool{false, true} {
+		menu := []int{engine.AnsA}
+		var run *engine.Run
+		if fail {
+			menu = []int{engine.AnsA, engine.AnsErr}
+			run = engine.NewReplayRun([]int{1})
+		}
+		seam := engine.NewSeam(run, menu)
+		seam.Stream = 77
+		restore := engine.Install(seam)
+		var ct1, ct2 []byte
+		var e1, e2 error
+		pi := engine.Catch(func() {
+			ct1, e1 = obj.Encrypt(append([]byte(nil), p...))
+			if e1 == nil {
+				ct2, e2 = obj.Encrypt(append([]byte(nil), p...))
+			}
+		})
+		restore()
+		if pi != nil {
+			c.Violate(pi.Sig(), "Encrypt with caller-supplied padding panics: "+pi.Value, cs)
+			return
+		}
+		if fail {
+			if e1 == nil {
+				c.Violate("hooks/source-failure-swallowed", fmt.Sprintf("caller-supplied padding, %d octets of plaintext: the random source fails at the first read and a ciphertext is returned", cs.N), cs)
+				return
+			}
+			continue
+		}
+		if e1 != nil || e2 != nil {
+			c.Violate("hooks/error", fmt.Sprintf("caller-supplied padding: %v %v", e1, e2), cs)
+			return
+		}
+		served := seam.Served()
+		if seam.Consumed() < 32 || !bytes.Contains(served, ct1[:16]) || !bytes.Contains(served, ct2[:16]) || bytes.Equal(ct1[:16], ct2[:16]) {
+			c.Violate("hooks/iv-not-drawn-per-call", fmt.Sprintf("caller-supplied padding, Iv nil: two calls consumed %d octets of the source, IVs %x and %x", seam.Consumed(), ct1[:16], ct2[:16]), cs)
+			return
+		}
+		pt := ref.CBCDecrypt(key, ct1[:16], ct1[16:])
+		if len(pt) != cs.N+padLen+1 || !bytes.Equal(pt[:cs.N], p) || int(pt[len(pt)-1]) != padLen {
+			c.Violate("hooks/not-textbook-cbc", fmt.Sprintf("caller-supplied padding of %d octets: reference decryption gives %d octets", padLen, len(pt)), cs)
+			return
+		}
+		if back, derr := obj.Decrypt(append([]byte(nil), ct1...)); derr != nil || !bytes.Equal(back, p) {
+			c.Violate("hooks/not-inverse", fmt.Sprintf("caller-supplied padding of %d octets (pad length octet %d): Decrypt gives (%d octets, %v)", padLen, padLen, len(back), derr), cs)
+			return
+		}
+	}
+	c.DistinctS(fmt.Sprint("hooks", cs.Desc, cs.N, cs.At))
 }
 
 // overlapReader lets other calls on the same cipher object run while one Encrypt is waiting for the random
@@ -254,6 +326,16 @@ func runC10(c *engine.Ctx) {
 			}
 			st := engine.Explore(b, 0, func(r *engine.Run) { c10EncryptSeq(c, base, r) }, func(r *engine.Run) {})
 			c.Count("env_executions(sequences)", st.Executions)
+		}
+	}
+	// the exported padding hook with Iv nil, minimal and longer paddings
+	for d := 0; d < 3; d++ {
+		for n := 0; n <= 40; n++ {
+			for extra := 0; extra < 3; extra++ {
+				if c.Mine() {
+					c10Hooks(c, c10Case{K: "hooks", Desc: d, KeyLen: ref.EncrKeyLens[d], N: n, At: extra})
+				}
+			}
 		}
 	}
 	// calls that overlap in time on one object
